@@ -112,7 +112,14 @@ EXT_CLASS_MODELS = {
         'count': ('pure',),
         'set_maxlen': ('mut',),
     },
+    # diagnostics: a logging call writes to handlers outside the program state the properties speak about, keeps
+    # none of its arguments and returns nothing that is used (TRUSTED: __repr__/__str__ of logged objects are pure)
+    'logging.Logger': {m: ('pure',) for m in ('debug', 'info', 'warning', 'warn', 'error', 'exception', 'critical',
+                                              'log', 'isEnabledFor', 'getEffectiveLevel', 'hasHandlers')},
 }
+EXT_FACTORIES = {'logging.getLogger': 'logging.Logger'}
+PURE_EXT_FUNCS = {'logging.debug', 'logging.info', 'logging.warning', 'logging.warn', 'logging.error',
+                  'logging.exception', 'logging.critical', 'logging.log', 'warnings.warn'}
 PURE_BUILTINS = {'len', 'int', 'float', 'abs', 'min', 'max', 'pow', 'range', 'print', 'str', 'isinstance',
                  'bool', 'round', 'sum', 'repr', 'type', 'id', 'hash', 'divmod', 'ord', 'chr', 'issubclass',
                  'callable', 'hasattr', 'format', 'any', 'all', 'bin', 'hex', 'complex', 'bytes', 'input',
@@ -157,6 +164,7 @@ class PTA:
         self.call_nodes: Dict[Tuple[str, int], ast.Call] = {}
         self.callers: Dict[str, Set[Tuple[str, int]]] = {}     # callee qualname -> call sites
         self.ext_calls: Dict[Tuple[str, int], Set[str]] = {}   # external dotted names called per site
+        self.diag_calls: Set[Tuple[str, int]] = set()            # sites that are logging calls
         self.unknown_pure_methods: Set[str] = set()
         self.unsupported: List[str] = []
         self.dynamic: List[str] = []
@@ -1379,8 +1387,11 @@ class PTA:
                         self.add(('F', res, '[]'), r)
             return {res}
         # generic external callable: result may retain references to its arguments
-        res = self.alloc('ext', node, tag='res', extra=('xcls', dotted))
-        if dotted in EXT_CLASS_MODELS:
+        if dotted in PURE_EXT_FUNCS:
+            self.diag_calls.add(key)
+            return set()
+        res = self.alloc('ext', node, tag='res', extra=('xcls', EXT_FACTORIES.get(dotted, dotted)))
+        if dotted in EXT_CLASS_MODELS or dotted in EXT_FACTORIES:
             return {res}
         for a in allargs:
             keep = {o for o in a if o.kind not in ('arith',)}
@@ -1426,6 +1437,8 @@ class PTA:
                                                    f'{xcls}.{name} changes the queue'))
                     return set()
                 if spec[0] == 'pure':
+                    if xcls == 'logging.Logger':
+                        self.diag_calls.add(key)
                     return set()
         known_type = recv.kind in CONTAINER_KINDS or recv.kind in ('ndarray', 'arith')
         unknown_type = recv.kind in ('param', 'field', 'ext')
